@@ -1086,7 +1086,7 @@ class RLC(Cpt):
         opts.strip_all_labels()
 
         vnet = self._netmake_variant('V', nodes=(dummy_node, self.relnodes[1]),
-                                     args=self.Voc.laplace()(var), opts=opts)
+                                     args=('s', self.Voc.laplace()(var)), opts=opts)
         if voltage_opts == {}:
             return znet + '\n' + vnet
 
